@@ -160,4 +160,46 @@ def r4(ctx):
     return rep
 
 
-RULES = [("C18.R1", r1), ("C18.R2", r2), ("C18.R3", r3), ("C18.R4", r4)]
+ACCEPT_ARM_ALLOWED = {
+    "tokio::net::TcpStream::set_nodelay": "setsockopt(TCP_NODELAY) on an accepted socket: not known to fail on Linux, also after a reset (advisory)",
+    "tokio::net::TcpStream::set_linger": "setsockopt(SO_LINGER) on an accepted socket: not known to fail on Linux (advisory)",
+}
+
+
+def r5(ctx):
+    rep = Report("C18.R5", "a fault of one accepted connection does not end the accept loop: inside the loop no `?` propagates a per-connection error out of run() (two setsockopt calls are whitelisted with a reason)", floor=3)
+    f = ctx.facts
+    from rules.c17 import natural_loop, chase_calls, RUN
+
+    b = f.one(RUN)
+    rep.analysed(b)
+    loops = [natural_loop(b, t_, h) for t_, h in b.has_cycle()]
+    acc = [bb for bb, t in b.calls() if strip_generics(t.callee.path or "") == "tokio::net::TcpListener::accept"]
+    outer = [L for L in loops if acc and acc[0] in L]
+    if not outer:
+        rep.bad("accept-loop", "cannot find the accept loop", b.loc())
+        return rep
+    L = max(outer, key=len)
+    n = 0
+    for bb, t in b.calls():
+        # the test of a `?` lies inside the loop; its error arm (from_residual) is a loop exit
+        if bb not in L or t.callee.name != "branch" or not (t.callee.trait or "").endswith("ops::Try"):
+            continue
+        n += 1
+        origin = None
+        for nm in list(ACCEPT_ARM_ALLOWED) + ["*"]:
+            if nm != "*" and chase_calls(b, t.args[0], lambda x, nm=nm: x == nm):
+                origin = nm
+                break
+        rep.check(origin is not None, "accept-loop:?-on-%s" % (origin or "other").split("::")[-1] + ("" if origin else "#%d" % n), "`?` inside the accept loop only on %s" % (origin or "?"), "an error of one accepted connection is propagated with `?` out of MemcacheTcpServer::run (not one of the whitelisted setsockopt calls): the listener stops and no new client is served — e.g. a connection reset while still in the backlog makes peer_addr()/getpeername fail with ENOTCONN", loc_s(t.span))
+    # explicit returns inside the loop
+    for x in sorted(L):
+        if b.blocks[x].term.k == "return":
+            rep.bad("accept-loop:return", "the accept loop contains a return", loc_s(b.blocks[x].term.span))
+    rep.ok("accept-loop:examined", "%d `?` sites inside the accept loop examined" % n, b.loc())
+    for nm, why in ACCEPT_ARM_ALLOWED.items():
+        rep.advise("%s? may end the accept loop: %s" % (nm.split("::")[-1], why))
+    return rep
+
+
+RULES = [("C18.R1", r1), ("C18.R2", r2), ("C18.R3", r3), ("C18.R4", r4), ("C18.R5", r5)]
